@@ -482,8 +482,9 @@ class TrajectoryCalc:
                 # break
             # endregion
         # endregion
-        # Ensure that we have at least two data points in trajectory
-        if len(ranges) < 2:
+        # Ensure that we have at least two data points in trajectory (event rows of an extra-data request
+        # do not count, so that its output keeps the closing row a plain request gets)
+        if sum(1 for row in ranges if row.flag & TrajFlag.RANGE) < 2:
             ranges.append(create_trajectory_row(
                 time, range_vector, velocity_vector,
                 velocity, mach, self.spin_drift(time), self.look_angle,
